@@ -130,13 +130,13 @@ impl Property for C04 {
     ]
   }
   fn plan(tier: Tier) -> Plan {
-    Plan { workers: 16, cases_per_worker: tier.pick(40, 600) }
+    Plan { workers: 16, cases_per_worker: tier.pick(400, 8000) }
   }
   fn strategy(tier: Tier) -> BoxedStrategy<Case> {
     let opts = SchemaOpts { force_compactable: true, ..SchemaOpts::default() };
     let free = SchemaOpts::default();
     prop_oneof![
-      4 => case_strategy(tier.pick(60, 200), opts),
+      4 => case_strategy(tier.pick(80, 250), opts),
       1 => case_strategy(tier.pick(40, 120), free),
     ]
     .boxed()
